@@ -463,4 +463,24 @@ Realises(d, kind, v) ==
     [] d.fam = "currency" -> kind = "Currency" /\ v.n = d.n
     [] d.fam = "time" -> kind = "Time" /\ v.neg = (d.a = 1) /\ v.n = d.n
     [] OTHER -> FALSE
+
+\* ---------------------------------------------------------------------------
+\* UNMARSHALLING REPLACES.  Decoding a document (or text) A into a receiver that already
+\* holds a value B yields the value A denotes -- not a mixture of A and B.  JSON forms omit
+\* or default parts of a value (omitempty members, condensed per-height leaf groups of
+\* ApplyUpdate / RevertUpdate, short specifiers): whatever the document does not mention must
+\* be RESET by the decoder, because sync loops and stream readers decode update k+1 into the
+\* variable that held update k.
+\*   in scope      types whose decoding is core's code: a custom UnmarshalJSON or UnmarshalText
+\*                 (custom = TRUE, decided by reflection on the real types)
+\*   DOCUMENTED EXCEPTION  plain structs without a custom unmarshaller: encoding/json merges
+\*                 into an existing struct by design (absent members keep their value); that is
+\*                 not core's code.  Their lines are information only.
+\* A "used" fact:  fresh = A parses into a fresh receiver;  used = A parses into the used one;
+\* same = the used receiver marshals back to A;  eq = it equals the fresh result field by
+\* field, unexported fields included.
+Replaces(custom, fresh, used, same, eq) == (custom /\ fresh) => (used /\ same /\ eq)
+\* an update decoded into a used receiver must refresh proofs exactly like the original:
+\* no panic, the same proof, and it verifies
+RefreshesAlike(panicked, proof, verifies, proofOrig) == ~panicked /\ proof = proofOrig /\ verifies
 =============================================================================
